@@ -112,6 +112,18 @@ def lenPrefixedLoose (bo : ByteOrder) (k : Nat) (c : Codec α) : Codec α where
     let p ← c.compose x
     composeBytes bo k p
 
+/-- A frame codec `F` delimits a payload (header + declared length); the class's own parser is then
+run on the payload ONLY (a fresh `ParserBinary(payload)`), what it leaves unconsumed inside the
+payload is ignored, and the consumed length is the frame's. -/
+def framed (F : Codec Bytes) (inner : Codec α) : Codec α where
+  parse := fun bs => do
+    let (pl, total) ← F.parse bs
+    let (v, _) ← inner.parse pl
+    pure (v, total)
+  compose := fun v => do
+    let p ← inner.compose v
+    F.compose p
+
 /-- items of `_parse_parsable_derived_array` on a slice: parse items until the slice is exhausted.
 Runs on fuel; `Positive item` is what makes fuel = slice length sufficient (a zero-length item
 would loop forever in the code and is modelled as the crash `NonTermination`). -/
